@@ -3,16 +3,20 @@ C17 — the secp256k1 curve implements the group law for all points and scalars.
 Model: Iota/Model/Secp256k1.lean (the Go `math/big` code on `Int`, with every `Mod`, conditional `+P`
 and the special cases added by the F6 repair).  Specification: Mathlib's group of nonsingular points of
 the Weierstrass curve y² = x³ + 7 over `ZMod P` (`WeierstrassCurve.Affine.Point`, an `AddCommGroup`).
-The ONLY assumption is that P is prime (`Fact (Nat.Prime P.toNat)`, a hypothesis of every theorem, not
-an axiom).  Proofs: Iota/Proofs/Secp/* (modular inverse, ring-hom layer, Jacobian formulas incl. all
-special cases, API).
+NO assumption is left: that P = 2^256 − 2^32 − 977 is prime — which makes `ZMod P` a field — is itself proved
+(`Iota/Proofs/Primes.lean`: Pratt certificates through Mathlib's `lucas_primality`, every numeric side condition
+evaluated by the kernel), and so are the primality of the group order N and that the base point has order
+exactly N (`Iota/Proofs/Secp/Order.lean`: `[N]G = 0` by kernel evaluation of the model's own double-and-add).
+Proofs: Iota/Proofs/Secp/* (modular inverse, ring-hom layer, Jacobian formulas incl. all special cases, API).
 -/
 import Iota.Proofs.Secp
+import Iota.Proofs.Primes
+import Iota.Proofs.Secp.Order
 
 namespace Iota.Props.C17
 open Iota.Secp256k1 Iota.Proofs.Secp WeierstrassCurve.Affine
 
-variable [Fact (Nat.Prime P.toNat)]
+-- `Fact (Nat.Prime P.toNat)` is the global instance of Iota/Proofs/Primes.lean: none of the theorems below has a hypothesis about P.
 
 /-- the points the API talks about: `(0,0)` is the identity (as crypto/elliptic prescribes); otherwise
 coordinates in `[0, P)` on the curve. -/
@@ -64,8 +68,13 @@ theorem mod_inverse_total (g : Int) (hg : g % P ≠ 0) :
     ∃ zi, modInverse g P = some zi ∧ 0 ≤ zi ∧ zi < P ∧ (zi * g) % P = 1 :=
   modInverse_prime (by decide +kernel) (by decide +kernel) Fact.out hg
 
+/-- P and N are prime, and the base point generates a group of order exactly N. -/
+theorem constants_prime : Nat.Prime P.toNat ∧ Nat.Prime N.toNat := ⟨Iota.Proofs.Primes.prime_P, Iota.Proofs.Primes.prime_N⟩
+
+theorem base_point_order : N.toNat • G Fp = 0 ∧ G Fp ≠ 0 ∧ addOrderOf (G Fp) = N.toNat :=
+  ⟨N_smul_G, G_ne_zero, addOrderOf_G⟩
+
 /-! ### non-vacuity -/
-omit [Fact (Nat.Prime P.toNat)] in
 example : isOnCurve Gx Gy = true ∧ isOnCurve 0 0 = false := by decide +kernel
 example : toPoint (Gx, Gy) = some (G Fp) := toPoint_G
 
